@@ -1089,6 +1089,121 @@ def stream_occupancy_rule(run, n, only=None):
     return "occupancy_rule", terms, meta, "check_occupancy_rule"
 
 
+# ------------------------------------------------------------------ stream 10: the value a fitted model predicts
+
+def stream_predict_value(run, zones, n, only=None):
+    """CalTRACKHourlyModel.predict with synthetic segment models whose parameters, temperatures and endpoints are small dyadic
+    numbers (binary64 products and sums are then exact, whatever the order of the dot product): the predicted value of
+    every hour against Model/CalTrackPredict.v, and against the own month model's closed form (oracle)"""
+    import random
+    from opendsm.eemeter.models.hourly_caltrack.segmentation import CalTRACKSegmentModel
+    from opendsm.eemeter.models.hourly_caltrack.model import CalTRACKHourlyModel
+    from opendsm.eemeter.common.features import fit_temperature_bins
+    cand = list(inspect.signature(fit_temperature_bins).parameters["default_bins"].default)
+    terms, meta = [], []
+    seeds = [only["seed"]] if only else [run.rng.randrange(10**9) for _ in range(n)]
+    for seed in seeds:
+        rng = random.Random(seed)
+        zone = rng.choice(zones)
+        fit_type = "single" if rng.random() < 0.15 else "three_month_weighted"
+        start = pd.Timestamp("2023-01-01", tz=zone) + pd.Timedelta(days=rng.randrange(0, 700))
+        if rng.random() < 0.5:          # across a month end
+            start = pd.Timestamp(year=start.year, month=start.month, day=1, tz=zone) - pd.Timedelta(hours=rng.randrange(1, 60))
+        idx = pd.date_range(start, periods=rng.choice([30, 72, 120]), freq="h")
+        lf = local_fields(idx, zone)
+        month, how = lf[:, 0], 24 * lf[:, 1] + lf[:, 2]
+        present = sorted(set(int(x) for x in month))
+        dy = lambda lo, hi, d: rng.randrange(lo * d, hi * d) / float(d)  # noqa
+        try:
+            names, own = own_columns(idx, zone, fit_type)
+            occ = {nm: [rng.random() < 0.5 for _ in range(168)] for nm in names}
+            fo = {nm: [rng.random() < 0.5 for _ in cand] for nm in names}
+            fu = {nm: [rng.random() < 0.5 for _ in cand] for nm in names}
+            state, params, segs = {}, {}, []
+            for nm in names:
+                u = rng.random()
+                state[nm] = "absent" if u < 0.08 else ("parameterless" if u < 0.16 else "fitted")
+                if state[nm] == "absent":
+                    continue
+                if state[nm] == "parameterless":
+                    segs.append(CalTRACKSegmentModel(nm, None, None, None))
+                    continue
+                hw = [(h, dy(-4, 4, 8)) for h in range(168) if rng.random() < 0.93]
+                po = [None if rng.random() < 0.1 else dy(-2, 2, 8) for _ in range(sum(fo[nm]) + 1)]
+                pu = [None if rng.random() < 0.1 else dy(-2, 2, 8) for _ in range(sum(fu[nm]) + 1)]
+                if rng.random() < 0.2:      # one slope for all occupied bins: the prediction is then linear in the temperature
+                    po = [po[0] if po[0] is not None else 0.5] * len(po)
+                params[nm] = (hw, po, pu)
+                cols = ["bin_%d_occupied" % i for i in range(len(po))] + ["bin_%d_unoccupied" % i for i in range(len(pu))]
+                d = {"C(hour_of_week)[%d]" % h: c for h, c in hw}
+                d.update({"bin_%d_occupied" % i: c for i, c in enumerate(po) if c is not None})
+                d.update({"bin_%d_unoccupied" % i: c for i, c in enumerate(pu) if c is not None})
+                segs.append(CalTRACKSegmentModel(nm, None, "meter_value ~ C(hour_of_week) - 1 + " + " + ".join(cols), d))
+            lookup = pd.DataFrame(occ, index=pd.CategoricalIndex(range(168)))
+            bo = pd.DataFrame(fo, index=pd.Series(cand, name="bin_endpoints"))
+            bu = pd.DataFrame(fu, index=pd.Series(cand, name="bin_endpoints"))
+            model = CalTRACKHourlyModel(segs, lookup, bo, bu, fit_type)
+            temps = [float("nan") if rng.random() < 0.05 else (float(rng.choice(cand)) if rng.random() < 0.15 else dy(-10, 110, 4))
+                     for _ in idx]
+            pred = model.predict(idx, pd.Series(temps, index=idx)).result["predicted_usage"].reindex(idx).to_numpy(dtype=float).tolist()
+        except Exception as e:  # noqa
+            run.violation({"stream": "predict_value", "broken": "raises", "raised": type(e).__name__},
+                          "C18 CalTRACKHourlyModel.predict raised %s: %s" % (type(e).__name__, str(e)[:200]),
+                          case={"stream": "predict_value", "seed": seed}, generator="c18.predict_value")
+            continue
+
+        def closed_form(nm, h, T):
+            """the own month model's answer from the statement: c_h + sum of coefficient x bin, bins = min / clamp / max"""
+            if nm is None or state.get(nm) != "fitted" or T != T:
+                return None
+            hw, po, pu = params[nm]
+            c = dict(hw).get(h)
+            if c is None:
+                return None
+            e = [Fraction(x) for x, f in zip(cand, fo[nm] if occ[nm][h] else fu[nm]) if f]
+            t = Fraction(T)
+            if not e:
+                b = [t]
+            else:
+                b = [min(t, e[0])] + [max(Fraction(0), min(t - l, r - l)) for l, r in zip(e, e[1:])] + [max(Fraction(0), t - e[-1])]
+            co = po if occ[nm][h] else pu
+            return Fraction(c) + sum(Fraction(k) * x for k, x in zip(co, b) if k is not None)
+
+        rows, reported = [], 0
+        for i, v in enumerate(pred):
+            h, T = int(how[i]), temps[i]
+            exp = closed_form(own[i], h, T)
+            got = None if v != v else Fraction(v)
+            run.count(("predict_value", seed, i), exp is not None)
+            run.dist("predict_value_kind", "NaN" if exp is None else ("occupied" if occ[own[i]][h] else "unoccupied"))
+            if got != exp and reported < 2:
+                reported += 1
+                run.violation({"stream": "predict_value", "broken": "prediction is not the own month model's value",
+                               "nan": got is None or exp is None},
+                              "C18 prediction at %s [%s]: %s, the own month model %s (%s) gives %s"
+                              % (idx[i].isoformat(), zone, None if got is None else float(got), own[i], state.get(own[i]),
+                                 None if exp is None else float(exp)),
+                              case={"stream": "predict_value", "seed": seed, "hour": idx[i].isoformat(), "row": i},
+                              observation={"predicted": v, "temperature": None if T != T else T, "hour_of_week": h},
+                              expected=None if exp is None else float(exp), generator="c18.predict_value")
+            rows.append("(%s, %s, %s, %s)" % (zlit(int(month[i])), zlit(h), coq_opt(None if T != T else T, lambda x: qlit(Fraction(x))),
+                                              coq_opt(got, qlit)))
+        q = lambda x: qlit(Fraction(x))  # noqa
+        frames = coq_list(["(%s, (%s, %s, %s))" % (coq_string(nm), coq_list([coq_bool(b) for b in occ[nm]]),
+                                                     coq_list([coq_bool(b) for b in fo[nm]]), coq_list([coq_bool(b) for b in fu[nm]]))
+                           for nm in names])
+        ms = coq_list(["(%s, %s)" % (coq_string(nm), "None" if state[nm] == "parameterless" else "(Some (%s, %s, %s))" % (
+            coq_list(["(%s, %s)" % (zlit(h), q(c)) for h, c in params[nm][0]]),
+            coq_list([coq_opt(c, q) for c in params[nm][1]]), coq_list([coq_opt(c, q) for c in params[nm][2]])))
+            for nm in names if state[nm] != "absent"])
+        terms.append("(%s, %s, %s, %s, %s)" % (frames, ms, coq_list([zlit(x) for x in present]), coq_string(fit_type), coq_list(rows)))
+        meta.append({"stream": "predict_value", "seed": seed, "zone": zone, "fit_type": fit_type, "hours": len(idx),
+                     "months_in_index": present, "segment_states": {k: v for k, v in state.items() if v != "fitted"}})
+    if meta:
+        run.sample(meta[0])
+    return "predict_value", terms, meta, "check_predict_value"
+
+
 def stream_fit(run, seed):
     """one real fit through the wrapper; every fitted segment model is then shifted by its own offset 1000*2^k
     (added to all its hour-of-week coefficients): the shift seen in an hour's prediction names the model(s) it came from"""
@@ -1270,7 +1385,7 @@ CONSTRUCTORS = {
     "check_weights": "Old (CWeights %s)", "check_bins_float": "Old (CBinsF %s)", "check_bins_q": "Old (CBinsQ %s)",
     "check_how": "Old (CHow %s)", "check_occupancy": "Old (COccupancy %s)", "check_prediction": "Old (CPrediction %s)",
     "check_prediction_on": "Old (CPredictionOn %s)", "check_unc": "Old (CUnc %s)", "check_weights_on": "Old (CWeightsOn %s)",
-    "check_fit_bins": "CFitBins %s", "check_fit_api": "CFitApi %s", "check_occupancy_rule": "COccRule %s",
+    "check_predict_value": "CPredictValue %s", "check_fit_bins": "CFitBins %s", "check_fit_api": "CFitApi %s", "check_occupancy_rule": "COccRule %s",
 }
 
 
@@ -1410,6 +1525,9 @@ def main():
     if st in (None, "routing_partial"):
         results.append(stream_routing_partial(run, zones, run.n(40, 1500), only))
         run.log("routing_partial done")
+    if st in (None, "predict_value"):
+        results.append(stream_predict_value(run, zones, run.n(10, 300), only))
+        run.log("predict_value done")
     if st in (None, "fit_bins"):
         results.append(stream_fit_bins(run, run.n(60, 1500), only))
         run.log("fit_bins done")
